@@ -1256,6 +1256,14 @@ reg(Prop("C09", "Fast checkmate and stalemate tests agree with the absence of le
                          "thorough: every index, about 10^8 positions of the domain): IsCheckmate/IsStalemate against the engine's own "
                          "playable-move count; every disagreement and a sample of the agreeing positions are handed to the model "
                          "and to the spec judge; the histogram keys swept-* give the volume"),
+          StreamCfg("c09s", 400, 20000, judge="judge_c09s",
+                    rule="sessions on ONE long-lived board: depth-first walks (depth <= 4, make / undo / null move, illegal "
+                         "moves made and taken back) from constructed, themed in-check / few-flight, only-en-passant, small-material "
+                         "and play-out roots; at every node before descending and again after every child (post-order) "
+                         "InCheck(side to move), InCheck(other side), IsCheckmate, IsStalemate in random order and random subsets, the "
+                         "domain of the two tests decided on a fresh copy; every answer is compared with the same question on a fresh "
+                         "copy (VerifRestore of a snapshot), with Model/Mate.v after the same operations, and judged against the rules; "
+                         "non-trivial = a post-order IsCheckmate/IsStalemate question after a child asked InCheck(side to move)"),
           StreamCfg("c09ab", 1500, 100000,
                     rule="Board.Attackers / Board.Block on positions of the shared generators with random square sets and colours")],
          trusted=["hook board/export_verif.go (VerifSnapshot/VerifRestore: building engine boards from the wire format)",
